@@ -36,7 +36,7 @@ OTHER_KIND_LINES = ["  0 = B 120000", "  0 = TS 4", "  0 = TS 4 3", "  0 = A 500
 def required(tier):
     return ["accept:N:digits1", "accept:N:digits>=20", "accept:N:digits40", "accept:S:digits40", "accept:E", "accept:padded",
             "accept:leading_zeros", "reject:other_kind", "reject:S_index", "reject:N_index", "reject:E_multiword",
-            "nearmiss:accept", "nearmiss:reject", "dontcare", "section_route"]
+            "nearmiss:accept", "nearmiss:reject", "dontcare", "section_route", "line_text_shared_with_events_section"]
 
 
 def shards(tier, seed):
@@ -155,17 +155,34 @@ def judge_line(rec, line, seen, origin):
 
 def section_route(rec, rng, pool_reject):
     """a hostile, padded chart + must-reject lines sprinkled into its instrument sections"""
-    case = gen.gen_chart(rng, "hostile", n_tracks=rng.choice([1, 2]), n_groups=rng.choice([3, 20]), pad=True, n_globals=0,
-                         shuffle_sections=False)
+    case = gen.gen_chart(rng, "hostile", n_tracks=rng.choice([1, 2]), n_groups=rng.choice([3, 20]), pad=rng.random() < 0.5, n_globals=0,
+                         shuffle_sections=rng.random() < 0.5)
     secs = []
+    shared = []
     for name, body in case["sections"]:
         if name not in ("Song", "SyncTrack", "Events"):
             body = list(body)
+            # a track event whose word is a quoted, blank-free string: the very same line text is also a valid global
+            # text event, so it is offered to the [Events] section of the same chart as well (shared line text)
+            t = rng.randint(0, 10**6)
+            w = rng.choice(["\"solo\"", "\"x\"", "\"lyric\"", "\"section\"", "\"\""])
+            line = f"  {t} = E {w}"
+            key = [k for k in case["truth"]["tracks"] if model.header(*k.split("/")) == name][0]
+            te = case["truth"]["tracks"][key]["tevents"]
+            if not te or te[-1][0] <= t:
+                te.append([t, w])
+                body.append(line)
+                shared.append((t, line, w[1:-1]))
             for _ in range(rng.choice([0, 3, 10])):
                 ln = rng.choice(pool_reject)
                 if ln not in ("{", "}"):
                     body.insert(rng.randint(0, len(body)), ln)
         secs.append((name, body))
+    if shared:
+        shared.sort(key=lambda x: x[0])
+        secs = [(n, ([x[1] for x in shared] if n == "Events" else b)) for n, b in secs]
+        case["truth"]["globals"] = [[t, "text", v] for t, _, v in shared]
+        rec.cls("line_text_shared_with_events_section")
     c = {"text": gen.render_sections(secs), "truth": case["truth"]}
     out, ob, d = mcheck.judge(rec, ("C07",), c)
     if d is not None and not d.of("C07"):
